@@ -252,3 +252,98 @@ def c19_two(e):
             return False
     blanks = sum(1 for s in streams for l in (s.split("\n")[:-1] if s.endswith("\n") else s.split("\n")[:-1]) if l == "")
     return sum(1 for l in got[:-1] if l == "") == blanks
+
+
+# --- decoder state over sequences of SGR and hyperlink (OSC 8) tokens, across lines (P) -----------------------------------
+_DTOK = ["x", "\x1b[1m", "\x1b[31m", "\x1b[0m", "\x1b]8;;http://x/y\x1b\\", "\x1b]8;;\x1b\\", "\n", "\x1b[22m"]
+
+
+def _decode_ok(stream, through_proxy) -> bool:
+    c = Console(file=io.StringIO(), color_system="truecolor", force_terminal=True, width=80, legacy_windows=False, _environ={})
+    want = [cell for cell in termmodel.sgr_decode(stream).cells]
+    if through_proxy:
+        proxy = FileProxy(c, io.StringIO())
+        proxy.write(stream)
+        complete = stream[: stream.rfind("\n") + 1]
+        want = [cell for cell in termmodel.sgr_decode(complete).cells if cell[0] != "\n"]
+        got = [cell for cell in termmodel.sgr_decode(c.file.getvalue()).cells if cell[0] != "\n"]
+        key = lambda cells: [(ch, "bold" in at, fg, link) for ch, at, fg, bg, link in cells]  # noqa: E731
+        return key(got) == key(want)
+    lines = list(AnsiDecoder().decode(stream))
+    got = []
+    for line in lines:
+        for i, ch in enumerate(line.plain):
+            st = line.get_style_at_offset(c, i)
+            fg = None if st.color is None else ("std", st.color.number)
+            got.append((ch, bool(st.bold), fg, st.link))
+    return got == [(ch, "bold" in at, fg, link) for ch, at, fg, bg, link in want if ch != "\n"]
+
+
+def _mk_decode_seq(ntok, tiers, timeout):
+    @symx("C19-decode-token-sequences-%d" % ntok, tiers=tiers, timeout=timeout, kind="P",
+          functions=F_D + ["rich/style.py:Style.update_link", "rich/file_proxy.py:FileProxy.write"],
+          bounds="every stream of %d tokens from {x, bold on, red, reset, bold off, hyperlink open, hyperlink close, newline} followed "
+                 "by 'x', newline, 'x', newline (so that state carried past a hyperlink close or a line end shows), decoded directly "
+                 "by AnsiDecoder.decode and written through a FileProxy to a truecolor console: per character the same bold / "
+                 "colour / link as the independent terminal model assigns (solver-enumerated, native)" % ntok,
+          outside="other SGR parameters (C19-decode-sgr-parameter covers each singly); OSC 8 with an id parameter; a reset (SGR 0) "
+                  "while a hyperlink is open - a terminal keeps the link, Rich's decoder drops it; the property speaks of styling "
+                  "and Rich's own encoder never produces that order, so those streams are skipped (recorded in DESIGN.md 0.4)")
+    def h(e):
+        toks = [_DTOK[int(e.mk("t%d" % i, 0, len(_DTOK) - 1))] for i in range(ntok)]
+        stream = "".join(toks) + "x\nx\n"
+        open_link = False
+        for t in toks:
+            if t == _DTOK[4]:
+                open_link = True
+            elif t == _DTOK[5]:
+                open_link = False
+            elif t == _DTOK[3] and open_link:
+                return True     # SGR 0 inside an open hyperlink: see `outside`
+        return _decode_ok(stream, False) and _decode_ok(stream, True)
+    return h
+
+
+_mk_decode_seq(4, ("quick", "thorough"), 900)
+_mk_decode_seq(6, ("thorough",), 3400)
+
+
+# --- the same Text printed repeatedly: Style objects that were rendered before are combined again (P) -------------------
+from rich.text import Text  # noqa: E402
+
+_R_ATTR = [None, ("bold", True), ("bold", False), ("italic", True), ("dim", False)]
+_R_COL = [None, Color.parse("red"), Color.from_rgb(64, 80, 96)]
+
+
+def _r_style(e, p):
+    kw = {}
+    a = _R_ATTR[int(e.mk(p + "_attr", 0, len(_R_ATTR) - 1))]
+    if a:
+        kw[a[0]] = a[1]
+    link = "http://x/" + p if e.mkbool(p + "_link") else None
+    return Style(color=_R_COL[int(e.mk(p + "_fg", 0, 2))], bgcolor=_R_COL[int(e.mk(p + "_bg", 0, 2))], link=link, **kw)
+
+
+@symx("C19-roundtrip-nested-spans-repeated", timeout=1500, kind="P", functions=F_D + ["rich/text.py:Text.render", "rich/style.py:Style.__add__"],
+      bounds="Text 'abcd' with style a on [0,4) and style b on [1,3) (each: attribute from {none, bold on/off, italic on, dim off} x fg, "
+             "bg from {unset, standard, truecolor} x link), printed three times by the same truecolor console with the same Style "
+             "objects: every one of the three outputs decodes to the characters with the combined style per character "
+             "(solver-enumerated, native)")
+def c19_nested_repeated(e):
+    a, b = _r_style(e, "a"), _r_style(e, "b")
+    c = Console(file=io.StringIO(), color_system="truecolor", force_terminal=True, width=80, legacy_windows=False, _environ={})
+    text = Text("abcd")
+    text.stylize(a, 0, 4)
+    text.stylize(b, 1, 3)
+    want = [_style_key(a), _style_key(a + b), _style_key(a + b), _style_key(a)]
+    for _round in range(3):
+        c.file.seek(0)
+        c.file.truncate()
+        c.print(text, end="")
+        lines = list(AnsiDecoder().decode(c.file.getvalue()))
+        if len(lines) != 1 or lines[0].plain != "abcd":
+            return False
+        for i in range(4):
+            if _style_key(lines[0].get_style_at_offset(c, i)) != want[i]:
+                return False
+    return True
